@@ -55,7 +55,7 @@ Definition wit_ok (j : json) (script : list hostop2) : bool :=
   match world_after sw_now orc0 ssite_panics save_switches_now j 3 5000 script,
         world_after sw_now orc0 ssite_panics save_switches_now j 3 5000 [] with
   | Some w, Some fresh =>
-      wf_world_b w && at_save_point w
+      wf_world_b w && at_save_point w && resave_hyp_b save_switches_now w
       && match write_state ssite_panics save_switches_now w with
          | Ok js => match load_state ssite_panics save_switches_now fresh js with
                     | (OOk _, _) => true
